@@ -1200,8 +1200,10 @@ func (args LazyArgumentMap) filter(t syntax.Type,
 		var errs syntax.ErrorList
 		result := make(MarshalerMap, len(args))
 		for k, v := range args {
-			b, _, err := t.Elem.FilterJson(v, lookup)
-			if err != nil {
+			// A non-fatal error means that the value was converted (an
+			// int written as 3.0, for example) and can be used.
+			b, fatal, err := t.Elem.FilterJson(v, lookup)
+			if err != nil && fatal {
 				errs = append(errs, &elementError{
 					element: "key " + k,
 					inner:   err,
@@ -1215,8 +1217,8 @@ func (args LazyArgumentMap) filter(t syntax.Type,
 		result := make(MarshalerMap, len(t.Members))
 		for _, member := range t.Members {
 			et := lookup.Get(member.Tname)
-			b, _, err := et.FilterJson(args[member.Id], lookup)
-			if err != nil {
+			b, fatal, err := et.FilterJson(args[member.Id], lookup)
+			if err != nil && fatal {
 				errs = append(errs, &elementError{
 					element: "key " + member.Id,
 					inner:   err,
